@@ -215,6 +215,62 @@ def validate_random_runs(mol: Mol, g, seeds, tag="rand", parse_text=None):
 
 
 # --------------------------------------------------------------------------------------------
+# specification -> code: behaviours generated by TLC stepped through the real code
+# --------------------------------------------------------------------------------------------
+def export_behaviours(mol: Mol, targets, tag="mch", timeout=300, simulate=None, max_res=None):
+    """TLC on GenerateMCH: the decision history of every distinct terminal state (exhaustive, VIEW) or of every simulated behaviour."""
+    import re as _re
+    with common.Scratch(tag) as d:
+        n = len(mol.elems)
+        tg = "<<" + ", ".join("{" + ", ".join(tla(int(t)) for t in targets.get(i, [0])) + "}" for i in range(1, n + 1)) + ">>"
+        extra_defs = f"MCTargets == {tg}\n"
+        if max_res:
+            extra_defs += f"MCBound == Bound({int(max_res)})\n"
+        write_instance_module(d, mol, base="GenerateMCH", extra_defs=extra_defs)
+        cfg = os.path.join(d, "MC.cfg")
+        with open(cfg, "w") as f:
+            f.write("SPECIFICATION Spec\nCONSTANTS\n Elems <- MCElems\n Tok <- MCTok\n Targets <- MCTargets\nINVARIANT Export\n")
+            if not simulate:
+                f.write("VIEW View\n")
+            if max_res:
+                f.write("CONSTRAINT MCBound\n")
+        extra = ["-simulate", f"num={simulate[0]}", "-depth", str(simulate[1]), "-seed", str(common.seed() + 3)] if simulate else []
+        r = run_tlc(d, "MC", cfg=cfg, workers=1, timeout=timeout, xmx="3g", extra=extra)
+        if simulate:
+            r.ok = r.invariant_violated() is None and "Error:" not in r.out
+            m_ = _re.search(r"(\d+) states checked", r.out)
+            r.distinct = r.generated = int(m_.group(1)) if m_ else 0
+    seen, out = set(), []
+    for b in r.printed:
+        if "hist" in b:
+            key = json.dumps(b["hist"])
+            if key not in seen:
+                seen.add(key)
+                out.append(b)
+    return out, r
+
+
+def replay_behaviours(mol: Mol, g, behs, tag="replay", parse_text=None):
+    """Every behaviour: scripted decisions, forced targets -> what the code did, merged into one tree, judged by GenerateTrace."""
+    text = parse_text or mol.text()
+    obj = g.Molecule(text)
+    X.Tap.install(g)
+    tree = X.Tree()
+    t0 = time.time()
+    for b in behs:
+        script = [int(h[1]) for h in b["hist"] if h[0] == "c"]
+        forced = [(int(h[1]) + 0.5) / 1000.0 for h in b["hist"] if h[0] == "d"]
+        steps, obs = X.run_scripted(obj, script, forced=forced)
+        # a forced draw consumes no value of the script: the target itself tells two runs apart
+        steps = [(ev, used if used or ev["kind"] != "draw" else [("t", ev["t"])], alts) for ev, used, alts in steps]
+        tree.add_run(steps, obs)
+    ew = time.time() - t0
+    res = validate_tree(mol, tree, tag=tag)
+    res.explore_wall = ew
+    return res, tree
+
+
+# --------------------------------------------------------------------------------------------
 # model checking of an instance (design level)
 # --------------------------------------------------------------------------------------------
 def model_check(mol: Mol, targets, invariants, liveness=True, tag="mc", workers=2, timeout=600, expect_error=False, simulate=None, refine=False):
